@@ -259,7 +259,11 @@ def solve(equations, verbose=False):
         if all(eq.is_Boolean and bool(eq) for eq in sympy_equations):
             solutions = {}
         else:
-            solutions = sympy.solve(sympy_equations, set=True, manual=True)
+            try:
+                solutions = sympy.solve(sympy_equations, set=True, manual=True)
+            except NotImplementedError as e:
+                # sympy has no method for this (non-linear) system
+                raise SolveExceptionTooManySolutions() from e
             if solutions == []:
                 solutions = {}
             elif isinstance(solutions, tuple) and len(solutions) == 2:
